@@ -1,4 +1,5 @@
 import RodbusModel.Props.C02
+import RodbusModel.Props.C02Session
 /- axiom audit for C02: every line must report a subset of {propext, Classical.choice, Quot.sound} -/
 #print axioms Rodbus.C02.calls_justified
 #print axioms Rodbus.C02.decoded_request_in_limits
@@ -15,3 +16,16 @@ import RodbusModel.Props.C02
 #print axioms Rodbus.C02.invalid_no_effect
 #print axioms Rodbus.C02.reads_no_state_change
 #print axioms Rodbus.C02.reads_no_state_change_lookup
+/- session lift (Props/C02Session.lean) -/
+#print axioms Rodbus.C02.calls_justified'
+#print axioms Rodbus.C02.runFrames_calls_justified
+#print axioms Rodbus.C02.events_calls_justified
+#print axioms Rodbus.C02.session_calls_justified
+#print axioms Rodbus.C02.stream_calls_justified
+#print axioms Rodbus.C02.framing_error_ends_session
+#print axioms Rodbus.C02.framing_error_first
+#print axioms Rodbus.C02.session_framing_error
+#print axioms Rodbus.C02.session_ends_badFrame_iff
+#print axioms Rodbus.C02.cutScript_not_badFrame
+#print axioms Rodbus.C02.session_invalid_no_effect
+#print axioms Rodbus.C02.corrupted_request_no_effect
